@@ -36,6 +36,11 @@ def handlers : List (String × Handler) := [
         | none => "none"
       | none => "err args"
     | _ => "err args"),
+  ("esc.doc", fun
+    | [s] => match s.str? with
+      | some s => "ok " ++ encodeStr (escDoc 0 s)
+      | none => "err args"
+    | _ => "err args"),
   ("esc.rawsafe", fun
     | [s] => match s.str? with
       | some s => "ok " ++ toString (rawSafe '\'' patternTable s)
